@@ -82,6 +82,22 @@ Proof.
   split; [|exact C1]. rewrite C1, C2. f_equal. apply canonical_file_perm; [exact (proj1 (proj2 (proj2 G1))) | exact Hp].
 Qed.
 
+(* a declaration that has been exported is never lost from the FILE: in the final file of any history, the block of every
+   item that reached the path stands intact between two line breaks *)
+Theorem C06_exported_declaration_stays_in_the_file :
+  forall cfg U h fs st' rs q items i, names_ok (c_cwd cfg) ->
+    forallb is_export h = true -> run cfg U (init_state fs) h = (st', rs) ->
+    run_raw f_init (map (fun i => (it_ident i, item_text i)) items) = Ok (view st' q) ->
+    good_history items -> In i items ->
+    exists pre post, content_at (s_fs st') q = Some (pre ++ [nl] ++ it_block i ++ [nl] ++ post).
+Proof.
+  intros cfg U h fs st' rs q items i Hc Hh H R G Hi.
+  assert (Hne : items <> []) by (intros ->; contradiction).
+  rewrite run_raw_items in R. pose proof (file_after_canonical items Hne G) as Hc1. unfold file_after in Hc1. rewrite R in Hc1. cbn [omap] in Hc1.
+  injection Hc1 as Hc1. unfold view in Hc1. destruct (reg_get (s_reg st') q); cbn [f_content f_init] in Hc1; [|discriminate Hc1].
+  destruct (canonical_file_lossless items i Hi) as (pre & post & E). exists pre, post. rewrite Hc1, E. reflexivity.
+Qed.
+
 (* every export text is the text of an item (notice, import groups, declaration block), so the last clause applies *)
 Theorem C06_export_text_is_an_item :
   forall esm cwd U i dir s, export_to_string esm cwd U i dir = Ok s ->
@@ -114,3 +130,4 @@ Print Assumptions C06_one_path_is_a_C05_file.
 Print Assumptions C06_final_files_are_canonical.
 Print Assumptions C06_export_text_is_an_item.
 Print Assumptions C06_history_independent.
+Print Assumptions C06_exported_declaration_stays_in_the_file.
